@@ -159,6 +159,11 @@ def mk(op, a: Node, b: Node) -> Node:
                 return a
             if a.op == "*" and a.args[0].op == "c":
                 return mk("*", const(v * a.args[0].args[0]), a.args[1])
+        # x * (y / x) -> y   (x != 0 belongs to the domain of the traced expression)
+        if b.op == "/" and b.args[1] is a:
+            return b.args[0]
+        if a.op == "/" and a.args[1] is b:
+            return a.args[0]
         if (b.op == "c" and a.op != "c") or (a.id > b.id and not (a.op == "c" and b.op != "c")):
             a, b = b, a
     elif op == "/":
